@@ -21,36 +21,35 @@ def T(proved, partial=None, validated=None):
 TECH = "Coq proof (invariants over histories / refinement to a spec) + model-implementation correspondence (extraction, differential) + independent oracle"
 CLAIMED = {
  'C01': dict(text=T("presence = union of accepted spans for every call sequence and both classes (C01_presence, C01_flat), outcome rule Done/ValueError/NetworkXError (C01_outcome_*), monotonicity and frame (C01_monotone_frame)."), design="DESIGN.md 5 C01"),
- 'C02': dict(text=T("in every state reachable by add_interaction/add_node (C02_reach) neighbors/successors/predecessors, nodes(t)/has_node/number_of_nodes, in_/out_interactions (with nbunch), undirected interactions() and degree are exactly the projections of has_interaction, each interaction once (C02_neighbors, C02_nodes, C02_in_out_interactions, C02_interactions_undirected, C02_degree).",
-                     "digraph interactions() is only sound (C02_interactions_partial / C02_digraph_interactions_refuted); undirected self-loop arithmetic (C02_selfloop_refuted); density(G,t)=0 (C02_density_t_refuted).",
-                     "size/number_of_interactions(t)/density/degree_histogram/non_neighbors/non_interactions/get_node_snapshots and the _iter / dn.* forms are compared by the correspondence and the networkx oracle only."), design="DESIGN.md 5 C02"),
- 'C03': dict(text=T("timelines are canonical, their union is the presence, both directions of an undirected pair expose one timeline (C03_canon, C03_union, C03_symmetric); time_slice/to_directed/to_undirected results are reachable by accepted adds only, hence canonical (C03_derived_wf, C03_wf_canon).",
-                     None, "readers' results are covered by the round-trip theorems of C09/C11 and the same sub-oracle."), design="DESIGN.md 5 C03"),
+ 'C02': dict(text=T("in every state reachable by add_interaction/add_node (C02_reach): neighbors/successors/predecessors, nodes(t)/has_node/number_of_nodes, in_/out_interactions (with nbunch), undirected interactions(), degree and degree dicts (nbunch), size/number_of_interactions(t) with the handshake lemma (C02_size), density on the flattened graph, degree_histogram, non_neighbors, non_interactions, get_node_snapshots, is_empty are exactly the projections of has_interaction, each interaction once (C02_neighbors, C02_nodes, C02_in_out_interactions, C02_interactions_undirected, C02_degree, C02_degree_dict, C02_size, C02_density_flat, C02_degree_histogram, C02_non_neighbors, C02_non_interactions, C02_node_snapshots, C02_is_empty, C02_number_of_interactions_pair).",
+                     "digraph interactions() is only sound (C02_interactions_partial / C02_digraph_interactions_refuted); undirected self-loop arithmetic: C02_size needs no_selfloop on DynGraph (C02_selfloop_refuted); density(G,t)=0 (C02_density_t_refuted).",
+                     "the _iter / dn.* forms (one-line delegations) and non_interactions on DynDiGraph (set-order dependent) are compared by the correspondence / soundness oracle only."), design="DESIGN.md 5 C02"),
+ 'C03': dict(text=T("timelines are canonical, their union is the presence, both directions of an undirected pair expose one timeline (C03_canon, C03_union, C03_symmetric); time_slice/to_directed/to_undirected results and every graph the readers return (read_snapshots, read_interactions, node_link_graph; row and text level) satisfy all invariants, hence are canonical (C03_derived_wf, C03_wf_canon, C03_readers_wf, C03_wfg_canon)."), design="DESIGN.md 5 C03"),
  'C04': dict(text=T("snapshot ids are strictly increasing and exactly the inhabited instants, per-snapshot counts equal the number of present pairs, dict form, avg_number_of_nodes (C04_ids, C04_count, C04_count_is_presence, C04_all, C04_avg).") , design="DESIGN.md 5 C04"),
- 'C05': dict(text=T("stream sorted and duplicate-free, '+' iff appearance, '-' sound, runs of >= 3 instants closed (C05_sorted_nodup, C05_plus, C05_minus_sound, C05_closed_partial).",
-                     "closure of 2-instant runs and replay: C05_closed_refuted (witness 18,19)."), design="DESIGN.md 5 C05"),
- 'C06': dict(text=T("window errors/default, class, presence = window AND source presence, nodes+attributes, slice is Good and WF, slices compose at presence level (C06_window, C06_presence, C06_nodes, C06_slice_good, C06_compose).",
+ 'C05': dict(text=T("stream sorted and duplicate-free, '+' iff appearance, '-' sound, runs of >= 3 instants closed (C05_sorted_nodup, C05_plus, C05_minus_sound, C05_closed_partial); replaying the stream reconstructs presence whenever all runs of >= 2 instants are closed (C05_replay_partial).",
+                     "closure of 2-instant runs and replay in their presence: C05_closed_refuted, C05_replay_refuted (witness 18,19; K-C05-1)."), design="DESIGN.md 5 C05"),
+ 'C06': dict(text=T("window errors/default, class, presence = window AND source presence, nodes+attributes, the slice is Good, WF and WFG (all invariants behind C02-C05), slices compose at presence level (C06_window, C06_presence, C06_nodes, C06_slice_good, C06_slice_wellformed, C06_compose).",
                      None, "source unchanged (aliasing) and composition of the remaining observables (stream, ids) are checked by the oracle."), design="DESIGN.md 5 C06"),
  'C07': dict(text=T("a rejected add_interaction leaves the whole state record unchanged in both modes, continuation, bulk helpers stop exactly before the failing element (C07_atomic, C07_continuation, C07_bulk, C07_bulk_missing_t)."), design="DESIGN.md 5 C07"),
  'C08': dict(text=T("accumulative presence = first accepted add .. largest accepted instant, flattened, ids = accepted instants, stream = one '+' per pair and no '-' (C08_presence, C08_flat, C08_ids, C08_stream), query layer via C02's theorems (C08_queries).",
                      "query-layer findings shared with C02 (self-loop arithmetic, digraph interactions())."), design="DESIGN.md 5 C08"),
  'C09': dict(text=T("rows = one per interaction and present instant, no duplicates (C09_rows); reading the written rows back gives the same class and presence (C09_roundtrip); four-column rows (C09_four_columns); text level: render/parse of a row and of decimals are inverse (C09_text, C09_decimal).",
                      None, "open_file dispatch, gzip/bz2, file objects, byte encodings, string node ids."), design="DESIGN.md 5 C09"),
- 'C10': dict(text=T("rows = the stream in chronological order (C10_write), reader semantics of '+' and '-' (C10_read_plus, C10_read_minus, C10_minus_presence).",
-                     "round trip refuted for the unclosed two-instant run (C10_roundtrip_refuted, K-C10-1); the positive round trip and 'reader = replay of a well-formed log' are established by the correspondence/oracle only."), design="DESIGN.md 5 C10"),
+ 'C10': dict(text=T("rows = the stream in chronological order (C10_write), reader semantics of '+' and '-' (C10_read_plus, C10_read_minus, C10_minus_presence); reading back what was written preserves class and presence for every reachable graph whose runs of >= 2 instants are closed (C10_roundtrip_partial, C10_reachable).",
+                     "round trip refuted for the unclosed two-instant run (C10_roundtrip_refuted, K-C10-1).",
+                     "equality of the re-read STREAM; reader = replay for arbitrary well-formed logs that no graph produced (oracle)."), design="DESIGN.md 5 C10"),
  'C11': dict(text=T("content of node_link_data (C11_data, C11_links), node_link_graph(node_link_data g) has the same class, nodes, attributes and presence (C11_roundtrip), the directed argument is used only when the data does not say (C11_class).",
                      None, "json.dumps/loads, custom attrs['id']."), design="DESIGN.md 5 C11"),
- 'C12': dict(text=T("every returned path is non-empty, leaves u, chains, has strictly increasing times inside the window, every hop present, ends in v (C12_sound), no immediate reversal (C12_no_pingpong), no duplicates (C12_nodup), improper window (C12_window_error).",
-                     "'intermediate node alive between arrival and departure' is not proved for returned paths (it is the hypothesis side of C13_complete_partial); validated by the oracle.",
-                     "tuple type and grouping under (first,last) keys; the '_' string encoding of occurrences."), design="DESIGN.md 5 C12"),
- 'C13': dict(text=T("completeness: every hop sequence satisfying C12's conditions whose first hop is not a root self-loop is returned (C13_complete_partial, C13_dag_complete, C13_search_complete), absent root (C13_absent_root), all_time_respecting_paths = per-node queries (C13_all).",
+ 'C12': dict(text=T("every returned path is non-empty, leaves u, chains, has strictly increasing times inside the window, every hop present, ends in v (C12_sound), no immediate reversal (C12_no_pingpong), every intermediate node has an interaction at each window id between arrival and departure (C12_valid, C12_edges_alive), no duplicates (C12_nodup), improper window (C12_window_error).",
+                     None, "tuple type and grouping under (first,last) keys; the '_' string encoding of occurrences."), design="DESIGN.md 5 C12"),
+ 'C13': dict(text=T("EXACT characterisation: a hop sequence whose first hop is not a root self-loop is returned iff it satisfies C12's conditions (C13_exact = soundness + C13_complete_partial; C13_dag_complete, C13_search_complete), absent root (C13_absent_root), all_time_respecting_paths = per-node queries (C13_all).",
                      "first hop = self-loop of the root is missed (C13_complete_refuted, K-C13-1).", "sample<1 (numpy) subset relation."), design="DESIGN.md 5 C13"),
  'C14': dict(text=T("each class is exactly the set of minimisers (C14_primary, C14_secondary), subset of the input, non-empty, multiplicity kept, metrics (C14_subset, C14_nonempty, C14_primary_filter, C14_metrics)."), design="DESIGN.md 5 C14"),
  'C15': dict(text=T("edge soundness, exact sources, targets, window errors / empty DAG (C15_edge_sound, C15_sources, C15_targets, C15_window).",
                      "acyclicity holds without a root self-loop in the window (C15_acyclic_partial), refuted with one (C15_acyclic_refuted, K-C15-1)."), design="DESIGN.md 5 C15"),
- 'C16': dict(text=T("to_undirected(): presence = OR of the two directions, nodes/attributes kept, result WF (C16_undirected).",
-                     "to_directed(): sound and complete up to orientation (C16_directed_partial), both orientations refuted (C16_directed_refuted, K-C16-1); reciprocal=True has only an Example.",
-                     "deepcopy isolation, reciprocal=True, source unchanged."), design="DESIGN.md 5 C16"),
+ 'C16': dict(text=T("to_undirected(): presence = OR of the two directions; reciprocal=True: AND (C16_undirected, C16_reciprocal); nodes/attributes kept; both conversions return graphs satisfying every invariant behind C02-C05 (C16_wellformed).",
+                     "to_directed(): sound and complete up to orientation (C16_directed_partial), both orientations refuted (C16_directed_refuted, K-C16-1).",
+                     "deepcopy isolation (attributes poked, runs of the result extended, source re-observed), source unchanged."), design="DESIGN.md 5 C16"),
  'C17': dict(text=T("every ratio has 0 <= num <= den (C17_unit_interval), T_uv within T_u & T_v (C17_interaction_both), node_presence, edge_contribution = |T_uv|/|T| (C17_edge_contribution), inter-event histogram laws: mass, weighted sum, counts (C17_iet).",
                      None, "equality of each ratio with its set-theoretic definition is definitional in the model and established against the implementation by the correspondence + oracle; float rounding."), design="DESIGN.md 5 C17"),
  'C18': dict(text=T("comment/empty lines skipped and trailing comments ignored (C18_comments), short rows (C18_short_rows), readers = readers on the non-skipped rows (C18_noise), TypeError (C18_type_error), compact_timeslot is a strictly increasing bijection onto 0..k-1 (C18_compact), keys (C18_keys).",
